@@ -146,7 +146,7 @@ fn run_c01(which: &str, p: &[f64], log: bool) -> Option<String> {
 }
 
 fn gen_c01(rng: &mut Rng, n: usize, out: &mut Vec<Case>) {
-    let xs = [2.0, -2.0, 3.0, 0.5, -1.0, 1.0, 0.0, 10.0, -0.25];
+    let xs = [2.0, -2.0, 3.0, 0.5, -1.0, 1.0, 0.0, 10.0, -0.25, 1e-9, -1e-12, 1e-5, 1e6, -3e4];
     // deterministic battery: one-hot and zero-at-position vectors for every fixed degree
     for deg in 0..=8usize {
         for pos in 0..=deg {
@@ -159,9 +159,16 @@ fn gen_c01(rng: &mut Rng, n: usize, out: &mut Vec<Case>) {
                 z[pos] = 0.0;
                 z.push(x);
                 out.push(case(&format!("c01_poly{}", deg), &z));
-                if x > 0.0 {
+                if x > 0.0 && x < 700.0 {
                     let mut lv = c.clone(); lv.push(x.exp());
                     out.push(case(&format!("c01_log{}", deg), &lv));
+                }
+                if pos <= 1 {
+                    // extreme positive arguments of the Log wrapper: subnormal, smallest normal, huge, next to 1
+                    for v in [5e-324, 1e-310, 2.2250738585072014e-308, 1e-300, 1e300, 1.0 + 1e-9, 1.0 - 1e-12, 1.0000000149011612] {
+                        let mut lv = c.clone(); lv.push(v);
+                        out.push(case(&format!("c01_log{}", deg), &lv));
+                    }
                 }
             }
         }
@@ -526,7 +533,7 @@ fn run_c10(p: &[f64]) -> Option<String> {
 }
 fn gen_c10(rng: &mut Rng, n: usize, out: &mut Vec<Case>) {
     let coefs = [[0.0, 1.0, 0.0, 0.0, 0.0, 0.0], [0.0, 0.0, 0.0, 0.0, 0.0, 1.0], [3.0, 2.0, 3.0, 4.0, 5.0, 6.0], [1.0, -2.5, 3.5, -4.5, 5.5, -6.5], [0.0, 0.0, 0.0, 0.0, 1.0, 24.0]];
-    let mut vs: Vec<f64> = vec![1.0, 7.0, 0.5, 2.0, 1e-8, 1e8, 1e-300, 1e300, (1.71f64).exp(), (-1.72f64).exp(), (1.72f64).exp(), (-1.71f64).exp()];
+    let mut vs: Vec<f64> = vec![1.0, 7.0, 0.5, 2.0, 1e-8, 1e8, 1e-300, 1e300, 1e-304, 1e-305, 1e-306, 1e305, (1.71f64).exp(), (-1.72f64).exp(), (1.72f64).exp(), (-1.71f64).exp()];
     // floats next to 1 and next to the two switch points, and a sweep over x in [-40, 40]
     for k in 1..40u64 { vs.push(f64::from_bits(1.0f64.to_bits() + k * k)); vs.push(f64::from_bits(1.0f64.to_bits() - k * k)); }
     for &sw in [1.71f64, -1.72f64].iter() { let b = sw.exp(); for k in 0..200i64 { vs.push(f64::from_bits((b.to_bits() as i64 + (k - 100) * 37) as u64)); } }
@@ -810,6 +817,9 @@ fn gen_c06(rng: &mut Rng, n: usize, out: &mut Vec<Case>) {
         vec![(1.0, 1.0), (1.0, 1.0), (2.0, 3.0)], vec![(1.0, 1.0), (1.0, 1.0)],
         vec![(0.0, 0.0), (2.0, 1.0), (1.0, 5.0), (3.0, 2.0)], vec![(3.0, 0.0), (2.0, 1.0), (1.0, 5.0)],
         vec![(-5.0, 1.0), (-4.0, -1.0), (-4.5, 3.0), (0.0, 0.0)], vec![(1e9, 1.0), (1e9 + 1.0, 2.0), (1e9 + 3.0, -2.0)],
+        vec![(1048576.0, 1.0), (f64::from_bits(1048576.0f64.to_bits() + 1), 2.0), (1048577.0, 0.0)],
+        vec![(1.7e9, 5.0), (f64::from_bits(1.7e9f64.to_bits() + 1), 7.0)], vec![(-1048576.0, 1.0), (f64::from_bits((-1048576.0f64).to_bits() - 1), 3.0)],
+        vec![(-3.0, 1.0), (-3.0, 2.0), (-2.0, 5.0)], vec![(-3.0, 1.0), (-3.0 + e, 2.0), (-1.0, 5.0)], vec![(-2.0, 1.0), (-2.5, 4.0), (-1.0, 0.0)],
     ];
     for sh in shapes.iter() { let v: Vec<f64> = sh.iter().flat_map(|(x, y)| vec![*x, *y]).collect(); out.push(case("c06_linear", &v)); }
     while out.len() < n {
